@@ -66,6 +66,7 @@ func main() {
 	allowPanic := flag.Bool("allow-panic", false, "uncaught panics are not a violation")
 	noPOR := flag.Bool("no-por", false, "disable partial-order constraint")
 	only := flag.String("only", "", "only check obligations whose id contains this")
+	exclude := flag.String("exclude", "", "name=value,...: exclude this assignment of nondets (known finding) from assert/panic queries")
 	verbose := flag.Bool("v", false, "verbose")
 	flag.Parse()
 
@@ -216,6 +217,26 @@ func main() {
 	}
 	qs = append(qs, q{"reach", "harness-end", "sat", e.gors[0].doneG, nil})
 
+	if *exclude != "" {
+		var eqs []*Term
+		for _, kv := range strings.Split(*exclude, ",") {
+			p := strings.SplitN(kv, "=", 2)
+			t, ok := e.nondets[p[0]]
+			if !ok || len(p) != 2 {
+				continue
+			}
+			if t.w == 0 {
+				eqs = append(eqs, Eq(t, BoolT(p[1] == "true")))
+			} else {
+				var v int64
+				fmt.Sscanf(p[1], "%d", &v)
+				eqs = append(eqs, Eq(t, BV(uint64(v), t.w)))
+			}
+		}
+		if len(eqs) > 0 {
+			e.constraints = append(e.constraints, Not(And(eqs...)))
+		}
+	}
 	sv, err := NewSolver(*solver, *smtlog)
 	if err != nil {
 		res.Status = "inconclusive"
